@@ -28,6 +28,7 @@ def check(run, tier):
     progs = targeted.fault_programs("evo") + targeted.fault_programs("fluent")
     progs += targeted.round2_programs("evo") + targeted.round2_programs("fluent")
     progs += targeted.config_programs("evo") + targeted.config_programs("fluent")
+    progs += targeted.thirddecimal_limit_programs("evo") + targeted.thirddecimal_limit_programs("fluent")
     progs += [p for dev in ("evo", "fluent") for p in targeted.shape_programs(dev) if "mismatch" in p["id"] or "broadcast" in p["id"]]
     progs += [p for p in evo.targeted_programs() if "oversized" in p["id"] or "canonical" in p["id"]]
     n = 200 if q else 4000
